@@ -35,8 +35,8 @@ Op ==
   /\ Is("Op") /\ lastop' = Ev.op
   /\ CASE Ev.op = "establish" ->
             \* (a panicking accept hook counts as a rejection; "idmod" hooks succeed after assigning an id and wrapping the connection)
-            /\ srv' = [srv EXCEPT ![Ev.slot] = IF Ev.sv \in {"reject", "panic"} THEN "rej" ELSE IF Ev.cv = "reject" THEN "down" ELSE "up"]
-            /\ cli' = [cli EXCEPT ![Ev.slot] = IF Ev.cv = "reject" THEN "rej" ELSE IF Ev.sv \in {"reject", "panic"} THEN "down" ELSE "up"]
+            /\ srv' = [srv EXCEPT ![Ev.slot] = IF Ev.sv \in {"reject", "panic", "idreject"} THEN "rej" ELSE IF Ev.cv = "reject" THEN "down" ELSE "up"]
+            /\ cli' = [cli EXCEPT ![Ev.slot] = IF Ev.cv = "reject" THEN "rej" ELSE IF Ev.sv \in {"reject", "panic", "idreject"} THEN "down" ELSE "up"]
        [] Ev.op \in {"closecli", "closesrv", "cut"} ->
             /\ srv' = [srv EXCEPT ![Ev.slot] = "down"] /\ cli' = [cli EXCEPT ![Ev.slot] = "down"]
        [] Ev.op \in {"peerclosesrv", "peerclosecli"} ->
